@@ -109,7 +109,7 @@ for k, tier, tmo in ((2, "quick", 900), (3, "thorough", 2400), (4, "thorough", 7
     LXH(f"lx_unrestricted_k{k}", COMMON + ["C06", "C13", "C14"], tier, f"1 dispatcher-consumed char + <= {k-1} code points", ["Lexer::lex_macro_string_unrestricted", "is_macro_amp", "is_macro_percent"], tmo, stubs=XID, contexts=["semi_text"], mem=20 if k == 4 else 14)
     LXH(f"lx_stat_opts_string_k{k}", COMMON + ["C06", "C13", "C14"], tier, f"1 dispatcher-consumed char + <= {k-1} code points", ["Lexer::lex_macro_string_stat_opts"], tmo, stubs=XID, contexts=["stat_opts"], mem=20 if k == 4 else 14)
     LXH(f"lx_arg_value_scan_k{k}", COMMON + ["C06", "C13"], tier, f"<= {k} code points; pnl any u32; flags symbolic", ["Lexer::lex_macro_string_in_macro_call_arg_value"], tmo + 600, stubs=XID, contexts=["arg_value"], mem=20 if k == 4 else 14)
-    LXH(f"lx_str_call_scan_k{k}", COMMON + ["C06", "C07", "C13"], tier if k > 2 else "thorough", f"<= {k} code points; pnl any u32; mask symbolic", ["Lexer::lex_macro_string_in_str_call", "Lexer::resolve_string_literal_payload"], tmo + 1200, stubs=XID, contexts=["str_call"], mem=24 if k >= 3 else 16)
+    LXH(f"lx_str_call_scan_k{k}", COMMON + ["C06", "C07", "C13"], tier, f"<= {k} code points; pnl any u32; mask symbolic", ["Lexer::lex_macro_string_in_str_call", "Lexer::resolve_string_literal_payload"], tmo + 1200, stubs=XID, contexts=["str_call"], mem=24 if k >= 3 else 16)
 LXH("lx_str_call_scan_esc_k3", COMMON + ["C06", "C07", "C13"], "thorough", "'%(' + <= 1 code point", ["Lexer::lex_macro_string_in_str_call"], 3000, stubs=XID, fixed="%(", contexts=["str_call"], mem=20)
 FIN = ["Lexer::finalize_lexing", "Lexer::lex_expected_token", "Lexer::handle_unterminated_str_expr", "Lexer::update_last_token"]
 for nm, tier in (("str_expect_eval_p0", "quick"), ("str_expect_eval_p2", "quick"), ("while_p1", "quick"), ("str_call_p2", "quick"), ("let_p0", "quick"), ("do_p0", "quick"),
@@ -255,7 +255,7 @@ COST = {
     "buf_bulk_vs_accessors_n3": 200, "buf_accessors_total_n1": 20, "buf_accessors_total_n2": 20, "buf_accessors_total_n3": 22, "twin_buf_bulk_vs_accessors": 25,
     "buf_line_col_vs_text_k3": 22, "buf_line_col_vs_text_k5": 26, "buf_into_detached": 25, "buf_checkpoint_rollback": 40,
     "lx_ws_k2": 40, "lx_ws_k3": 45, "lx_cstyle_comment_k4": 60, "lx_cstyle_comment_k5": 84, "lx_macro_comment_k4": 39, "lx_macro_comment_k5": 55, "lx_single_quoted_k3": 103, "lx_single_quoted_k4": 162, "cur_advance_by_k3": 63, "cur_advance_k3": 45, "cur_eat_char_k3": 40, "cur_eat_while_k3": 37, "cur_peek_k3": 40, "lx_single_quoted_esc_k5": 161,
-    "lx_unrestricted_k2": 146, "lx_stat_opts_string_k2": 134, "lx_arg_value_scan_k2": 259, "lx_finalize_": 280, "twin_lx_finalize": 60,
+    "lx_unrestricted_k2": 146, "lx_str_call_scan_k2": 456, "lx_stat_opts_string_k2": 134, "lx_arg_value_scan_k2": 259, "lx_finalize_": 280, "twin_lx_finalize": 60,
     "lx_token_expect_symbol": 100, "lx_token_expect_semi": 80, "lx_token_ws_only": 127, "lx_token_make_checkpoint": 87, "lx_token_macro_def_name": 100,
     "lx_preload_default": 126, "lx_preload_in_arg_value": 120, "lx_maybe_args_or_label": 78, "lx_label_sep": 65, "lx_numeric_literal": 50,
     "lx_new_bom": 30, "lx_semi_text_arm_semi": 35, "lx_stat_opts_arm_assign": 35, "lx_eval_string_k2": 600, "lx_default_star": 78, "lx_default_symbol": 103,
@@ -285,7 +285,7 @@ PRIMARY = [
     ("buf_line_col_vs_text", ["C04", "C17", "C02", "C03"]), ("buf_into_detached", ["C02", "C03", "C04"]), ("buf_checkpoint_rollback", ["C02", "C04", "C07"]),
     ("lx_ws_k2", ["C03"]), ("lx_ws_k3", ["C04", "C06", "C03", "C11"]), ("lx_cstyle_comment_k4", ["C03"]), ("lx_cstyle_comment_k5", ["C04", "C06", "C11"]), ("lx_macro_comment_k4", ["C03"]), ("lx_macro_comment_k5", ["C04", "C06"]),
     ("lx_single_quoted_k3", ["C04", "C11"]), ("lx_single_quoted_k4", ["C07", "C06", "C16"]), ("lx_single_quoted_esc_k5", ["C07", "C16"]),
-    ("lx_unrestricted_k2", ["C13", "C06"]), ("lx_stat_opts_string_k2", ["C13", "C14"]), ("lx_arg_value_scan_k2", ["C13", "C04"]),
+    ("lx_unrestricted_k2", ["C13", "C06"]), ("lx_str_call_scan_k2", ["C07", "C13"]), ("lx_stat_opts_string_k2", ["C13", "C14"]), ("lx_arg_value_scan_k2", ["C13", "C04"]),
     ("lx_finalize_", ["C10", "C14"]), ("lx_finalize_nested_str_p0", ["C10", "C14", "C01", "C09"]), ("lx_finalize_if_paren_p1", ["C10", "C14", "C02", "C09"]),
     ("lx_finalize_scan_p1", ["C10", "C14", "C01", "C02"]), ("twin_lx_finalize", ["C10", "C14"]),
     ("lx_token_expect_symbol", ["C14", "C09", "C06"]), ("lx_token_expect_semi", ["C14", "C09"]), ("lx_token_ws_only", ["C13", "C14", "C01"]),
